@@ -2,6 +2,7 @@ package catalog
 
 import (
 	"encoding/json"
+	"fmt"
 	"sync"
 
 	schema "github.com/jsightapi/jsight-schema-core"
@@ -57,7 +58,13 @@ func NewExchangeJSightSchema[T bytes.ByteKeeper](
 		}
 	}
 
-	err := coreUserTypes.Each(func(k string, v schema.Schema) error {
+	err := coreUserTypes.Each(func(k string, v schema.Schema) (err error) {
+		defer func() {
+			// adding a regex type draws an example of it; the generator panics on what it cannot express
+			if r := recover(); r != nil {
+				err = fmt.Errorf("%s: %w", k, regexExampleError(r))
+			}
+		}()
 		return es.JSchema.AddType(k, v)
 	})
 	if err != nil {
